@@ -47,6 +47,7 @@ import (
 	"github.com/libp2p/go-libp2p/p2p/security/noise"
 	libp2ptls "github.com/libp2p/go-libp2p/p2p/security/tls"
 	ma "github.com/multiformats/go-multiaddr"
+	manet "github.com/multiformats/go-multiaddr/net"
 	"net"
 )
 
@@ -374,6 +375,7 @@ func vfC04Scenario(t *testing.T, cfg vfC04Cfg, plan vfC04Plan, tr *vfh.Trace, ou
 
 	const lport = 5000
 	fl := vfc04.NewListener(lport)
+	fl.OnAccept = func(c manet.Conn) { led.RawOpen(c.(*vfc04.End).Name) }
 	ln := uL.UpgradeListener(vfC04Tpt{}, fl)
 	var lnCloseOnce sync.Once
 	closeListener := func(why string) {
@@ -601,7 +603,6 @@ func vfC04Scenario(t *testing.T, cfg vfC04Cfg, plan vfC04Plan, tr *vfh.Trace, ou
 	// hand the raw connections to the listener
 	for _, a := range atts {
 		led.Begin(a.l.Name, "conn", "in", "l", true)
-		led.RawOpen(a.l.Name)
 		st.set(vfC04Port(a.l.LocalAddr()), "accept")
 		fl.Ch <- a.l
 	}
